@@ -7,10 +7,11 @@ From PW.proofs Require Import P_affine P_rotation P_composite.
 Import ListNotations.
 Local Open Scope R_scope.
 
-(* ------------------------------------------------------------ composition order (any finite list) *)
-Theorem C03_compose_is_left_to_right : forall ms p, Forall (affine ROps) ms ->
+(* ------------------------------------------------------------ composition order (any finite list; every matrix that
+   is followed by another one affine, the last one arbitrary) *)
+Theorem C03_compose_is_left_to_right : forall ms p, Forall (affine ROps) (removelast ms) ->
   mapply_pt ROps (compose_transforms ROps ms) p = fold_left (fun q m => mapply_pt ROps m q) ms p.
-Proof. exact compose_left_to_right. Qed.
+Proof. exact compose_is_left_to_right_butlast. Qed.
 
 (* the pair a step appends: last rows (0,0,0,1) and inverse in both orders.  op_ok = documented argument domain
    (explicit matrices affine and, if an inverse is passed, really inverse; rotation matrices orthogonal) *)
@@ -81,6 +82,29 @@ Theorem C03_matrix_reverse_is_inverse : forall st range, Inv st ->
   inverse_pair (transform_matrix_for ROps st range false) (transform_matrix_for ROps st range true).
 Proof. exact matrix_reverse_is_inverse. Qed.
 
+(* the matrix clause without any affinity: explicit matrices may be projective, as long as every stored pair is an
+   inverse pair (op_ok_inv: an explicitly passed inverse is one, rotation matrices are orthogonal; np.linalg.inv /
+   the builders provide the rest) *)
+Theorem C03_InvPairs_reachable : forall ops, Forall op_ok_inv ops -> InvPairs (run_ops ROps ops []).
+Proof. exact InvPairs_reachable. Qed.
+Theorem C03_matrix_reverse_is_inverse_any : forall st range, InvPairs st ->
+  inverse_pair (transform_matrix_for ROps st range false) (transform_matrix_for ROps st range true).
+Proof. exact matrix_reverse_is_inverse_any. Qed.
+
+(* KNOWN FINDING compose_non_affine (known_findings/C03.json): with a non-affine explicit step the point clauses fail,
+   although every stored pair is a true inverse pair.  Witnesses (also run on the implementation):
+   append_transform(A, A^-1) with A = I except A[3,0] = 1, then translate (1,0,0), p = (1,0,0): call gives (3,0,0), step
+   by step (2,0,0);  append_transform(C, C^-1) with C = [[1,0,0,1],[0,1,0,0],[0,0,1,0],[1,0,0,2]]: reverse(forward(p)) =
+   (3,0,0) for p = (1,0,0) *)
+Theorem C03_sequential_projective_refuted : exists ops p,
+  Forall op_ok_inv ops /\
+  call_point ROps (run_ops ROps ops []) None false false p <> fold_left (fun q o => step_action o false q) ops p.
+Proof. exact sequential_projective_refuted. Qed.
+Theorem C03_reverse_projective_refuted : exists ops p,
+  Forall op_ok_inv ops /\
+  call_point ROps (run_ops ROps ops []) None true false (call_point ROps (run_ops ROps ops []) None false false p) <> p.
+Proof. exact reverse_projective_refuted. Qed.
+
 (* ------------------------------------------------------------ flags *)
 Theorem C03_vector_ignores_translation : forall t fr v, op_pair ROps (OTranslate t) = Ok fr ->
   apply_point ROps (fst fr) true v = v /\ apply_point ROps (snd fr) true v = v.
@@ -135,6 +159,7 @@ Definition C03_all := (C03_compose_is_left_to_right, C03_append_returns_index, C
   C03_step_inverse_both_orders, C03_step_acts_as_documented, C03_zero_scale_rejected,
   C03_negative_scale_rejected_unless_flip, C03_flip_dim_range, C03_Inv_reachable, C03_range_selects,
   C03_call_is_sequential, C03_call_reverse_is_sequential, C03_call_history, C03_call_history_range, C03_step_inverse_undoes, C03_length_is_accepted_calls, C03_reverse_undoes,
-  C03_matrix_reverse_is_inverse, C03_vector_ignores_translation, C03_single_equals_stack_row,
+  C03_matrix_reverse_is_inverse, C03_InvPairs_reachable, C03_matrix_reverse_is_inverse_any,
+  C03_sequential_projective_refuted, C03_reverse_projective_refuted, C03_vector_ignores_translation, C03_single_equals_stack_row,
   C03_discard_z_only_drops_z, C03_index_selects_step, C03_lengths_select_appended).
 Print Assumptions C03_all.
